@@ -259,14 +259,23 @@ func (s *sender) action(kind string) {
 	if s.isDead() {
 		vfs.Park()
 	}
+	s.actionNoPark(kind)
+	if s.isDead() {
+		vfs.Park()
+	}
+}
+
+// actionNoPark: a boundary action reached while the caller holds a lock of the code
+// under test (the payload encoder opens source files under its own mutex): the
+// caller must not be parked there - a goroutine waiting for that mutex is not
+// "durably blocked" and would stop the virtual clock - so a crash decided here makes
+// the operation fail instead
+func (s *sender) actionNoPark(kind string) {
 	s.dmu.Lock()
 	s.nAct++
 	s.dmu.Unlock()
 	if s.w.onAction != nil {
 		s.w.onAction(kind)
-	}
-	if s.isDead() {
-		vfs.Park()
 	}
 }
 
@@ -973,7 +982,7 @@ func (t *storeWrap) GetOpener() sts.Open {
 		}
 		// hashing and payload encoding open source files: a boundary action, so that
 		// stops and crashes can also arrive in the middle of a scan's hashing phase
-		t.s.action("store:open")
+		t.s.actionNoPark("store:open")
 		if t.s.isDead() {
 			return nil, errConn
 		}
